@@ -294,8 +294,9 @@ class BlockScan:
                 if i + 1 < len(s.v) and s.v[i + 1] == "[":
                     b0, b1 = i + 1, s.match[i + 1]
                     sink = self.sink(i, stmt_lo)
+                    skind = self.sink_kind(i, stmt_lo)
                     for kk, gg in self.index(b0 + 1, b1, g):
-                        self.uses.append(dict(k=kk, guard=list(gg), sink=sink[0], argpos=sink[1]))
+                        self.uses.append(dict(k=kk, guard=list(gg), sink=sink[0], argpos=sink[1], kind=skind))
                     i = b1 + 1; continue
                 # bare use: only as the argument of cmd.num_args( . )
                 if not (s.v[i - 1] == "(" and s.v[i - 2] == "num_args" and s.v[i + 1] == ")"):
@@ -324,6 +325,36 @@ class BlockScan:
                 raise Problem("%s: index `%s` depends on data" % (s.fname, s.txt(lo, hi)))
             return [(int(s.v[hi - 3]), g + gt), (int(s.v[hi - 1]), g + gf)]
         raise Problem("%s: index `%s[%s]` is not a literal" % (s.fname, self.pvar, s.txt(lo, hi)))
+
+    def sink_kind(self, i, stmt_lo):
+        """kind of what receives opt_parms[k] at token i, from the TYPE / callee in the source (not from variable names):
+        geom cond (Geometry constructor argument 0 / 1), matrix sym sparse sensors mesh (constructor of that type),
+        out (save/saveEEG/saveMEG), name (copied into a string, a stringstream, an interface or domain name argument)"""
+        s = self.s
+        j = i - 1; commas = 0
+        while j >= stmt_lo:
+            x = s.v[j]; k = s.k[j]
+            if k == "op" and x in CLOSE: j = s.match[j] - 1; continue
+            if k == "op" and x == "(":
+                if j - 1 >= stmt_lo and s.k[j - 1] == "id":
+                    callee = s.v[j - 1]
+                    if j - 2 >= stmt_lo and s.v[j - 2] == "." :
+                        if callee in ("save", "saveEEG", "saveMEG"): return "out"
+                        if callee in ("interface", "str"): return "name"
+                        raise Problem("%s: opt_parms passed to method `%s` of unknown meaning" % (s.fname, callee))
+                    typ = s.v[j - 2] if j - 2 >= stmt_lo and s.k[j - 2] == "id" else None
+                    if typ == "Geometry": return ["geom", "cond"][commas] if commas < 2 else "name"
+                    TY = {"Matrix": "matrix", "SymMatrix": "sym", "SparseMatrix": "sparse", "Sensors": "sensors", "Mesh": "mesh", "stringstream": "name", "string": "name"}
+                    if typ in TY and commas == 0: return TY[typ]
+                    if typ is None or typ in ("return",) or s.v[j - 2] in ("?", ":", "=", "(", ","):
+                        if callee in ("CorticalMat", "CorticalMat2") and commas == 2: return "name"
+                    raise Problem("%s: cannot tell what `%s %s(...)` does with opt_parms (argument %d)" % (s.fname, typ, callee, commas))
+                commas = 0; j -= 1; continue
+            if k == "op" and x == ",": commas += 1
+            if k == "op" and x == "=":
+                return "name"          # copied into a variable (std::string / const char*)
+            j -= 1
+        raise Problem("%s: opt_parms used in a statement of unknown shape `%s`" % (s.fname, s.txt(stmt_lo, i + 4)))
 
     def sink(self, i, stmt_lo):
         """(name, argument position) of the call/constructor/variable that receives opt_parms[k] at token i"""
@@ -359,11 +390,12 @@ HARMLESS_START = [["print_version", "("], ["cmd", ".", "print", "("], ["constexp
 def parse_tool(repo, name, rel):
     path = os.path.join(repo, rel)
     s = Src(rel, open(path).read())
-    tool = dict(name=name, file=rel, decls=[], help_exit=None, pre=[], argv_uses=[], blocks=[], unknown_exit=None, has_blocks=False, documented=[])
+    tool = dict(name=name, file=rel, decls=[], help_exit=None, pre=[], argv_uses=[], blocks=[], unknown_exit=None, has_blocks=False, documented=[], doc_lines=[])
     mf = find_function(s, "main")
     if mf is None: raise Problem("%s: no main" % rel)
     lo, hi = mf
     hf = find_function(s, "help")
+    in_args = False
     if hf is not None:
         j = hf[0]
         while j < hf[1]:
@@ -378,6 +410,11 @@ def parse_tool(repo, name, rel):
                 m = re.match(r"^\s+(-[A-Za-z][A-Za-z0-9]*(?:\s*(?:,|or|\s)\s*-[A-Za-z][A-Za-z0-9]*)*)\s*:", lit)
                 if m:
                     tool["documented"].append(re.findall(r"-[A-Za-z][A-Za-z0-9]*", m.group(1)))
+                    tool["doc_lines"].append([]); in_args = False
+                elif tool["doc_lines"]:
+                    line = lit.strip()
+                    if re.match(r"^(Arguments|Filepaths are in order)\s*:?$", line): in_args = True
+                    elif in_args and line: tool["doc_lines"][-1].append(line)
             j += 1
     consts = {}; parmlists = {}
     recognised_option_calls = 0; recognised_argc = 0
@@ -571,11 +608,55 @@ def parse_tool(repo, name, rel):
         raise Problem("%s: both positional argv[k] and option blocks" % rel)
     return tool
 
+DOC_RULES = [   # (regex on the lower-cased documented line, role, kind) -- first match wins
+    (r"^\[optional (parameter|filename)", "opt", "any"),
+    (r"geometry file", "geom", "geom"), (r"conductivity file", "cond", "cond"),
+    (r"domain name", "domain", "name"), (r"name of the interface", "iface", "name"),
+    (r"^output|gainmatrix$|gain matrix", "out", "out"),
+    (r"eit electrodes", "eit", "sensors"), (r"ecog electrodes", "ecog", "sensors"), (r"eeg electrodes", "elec", "sensors"),
+    (r"meg sensors|\.squids", "squids", "sensors"),
+    (r"point positions", "points", "matrix"),
+    (r"^mesh (of|file for) ?(distributed )?sources|mesh of sources", "srcmesh", "mesh"),
+    (r"^dipoles positions", "dip", "matrix"),
+    (r"^headmatinv$", "hminv", "sym"), (r"^headmat$", "hm", "sym"), (r"^sourcemat$", "dsm", "matrix"),
+    (r"^head2eegmat$", "h2em", "sparse"), (r"^head2megmat$", "h2mm", "matrix"), (r"^source2megmat$", "ds2mm", "matrix"),
+    (r"^head2ipmat$", "h2ipm", "matrix"), (r"^source2ipmat$", "ds2ipm", "matrix"),
+]
+def classify_doc(line, rel):
+    d = line.lower()
+    for rx, role, kind in DOC_RULES:
+        if re.search(rx, d): return role, kind
+    raise Problem("%s: documented parameter `%s` not recognised" % (rel, line))
+
+def attach_docs(tool):
+    """documented parameter order of every option block, from the lines its help text prints"""
+    rel = tool["file"]
+    for b in tool["blocks"]:
+        grp = [k for k, g in enumerate(tool["documented"]) if any(a in b["aliases"] for a in g)]
+        if not grp:
+            b["doc"] = None; continue          # an option the help text does not mention (reported by the check as undocumented)
+        lines = []
+        for l in tool["doc_lines"][grp[0]]:
+            parts = [x.strip() for x in l.split(",")]
+            if len(parts) > 1 and all(re.match(r"^[A-Za-z0-9]+$", x) for x in parts): lines += parts
+            else: lines.append(l)
+        if lines and re.match(r"^(bin Matrix|Matrix \(.*\))$", lines[-1]): lines.pop()      # a remark on the format, not a parameter
+        doc = []
+        for n, l in enumerate(lines):
+            role, kind = classify_doc(l, rel)
+            optional = l.lower().startswith(("[optional", "(optional")) or (n < len(b["parms"]) and b["multi"] and b["parms"][n].startswith("["))
+            doc.append(dict(text=l, role=role, kind=kind, optional=optional))
+        if len(doc) < len(b["parms"]):
+            raise Problem("%s: option %s: the help text documents %d parameters, the parser expects %d" % (rel, b["aliases"][0], len(doc), len(b["parms"])))
+        b["doc"] = doc
+
 def parse_all(repo):
     tools = []; problems = []
     for name, rel in TOOLS:
         try:
-            tools.append(parse_tool(repo, name, rel))
+            t = parse_tool(repo, name, rel)
+            attach_docs(t)
+            tools.append(t)
         except Problem as e:
             problems.append(str(e))
         except (IndexError, KeyError) as e:
@@ -595,6 +676,9 @@ CSTR = {}
 def clist(xs): return "[" + "; ".join(xs) + "]"
 def catom(a): return {"eq": "AEq", "ne": "ANe", "ge": "AGe", "lt": "ALt"}[a[0]] + " " + str(a[1])
 def cz(n): return "(%d)%%Z" % n
+
+PK = {"geom": "PGeom", "cond": "PCond", "matrix": "PMatrix", "sym": "PSym", "sparse": "PSparse", "sensors": "PSensors",
+      "mesh": "PMesh", "name": "PName", "out": "POut", "any": "PAny"}
 
 def emit(tools):
     CSTR.clear()
@@ -622,10 +706,11 @@ def emit(tools):
         o.append("  t_argv_uses := %s;" % clist(["(%d, %s)" % (u["k"], cstr(u["sink"])) for u in t["argv_uses"]]))
         bl = []
         for b in t["blocks"]:
-            us = ["{| u_k := %d; u_guard := %s; u_sink := %s; u_argpos := %d |}" % (u["k"], clist([catom(a) for a in u["guard"]]), cstr(u["sink"]), u["argpos"]) for u in b["uses"]]
-            bl.append("{| b_aliases := %s;\n       b_multi := %s;\n       b_parms := %s;\n       b_variant := %s;\n       b_uses := %s |}" % (
+            us = ["{| u_k := %d; u_guard := %s; u_sink := %s; u_argpos := %d; u_kind := %s |}" % (u["k"], clist([catom(a) for a in u["guard"]]), cstr(u["sink"]), u["argpos"], PK[u["kind"]]) for u in b["uses"]]
+            bl.append("{| b_aliases := %s;\n       b_multi := %s;\n       b_parms := %s;\n       b_variant := %s;\n       b_doc := %s;\n       b_uses := %s |}" % (
                 clist([cstr(a) for a in b["aliases"]]), "true" if b["multi"] else "false", clist([cstr(p) for p in b["parms"]]),
-                clist([cstr(a) for a in b["variant"]]), clist(us)))
+                clist([cstr(a) for a in b["variant"]]),
+                clist(["(%s, %s)" % (PK[d["kind"]], "true" if d["optional"] else "false") for d in (b.get("doc") or [])]), clist(us)))
         o.append("  t_blocks := [" + ";\n    ".join(bl) + "];")
         o.append("  t_unknown_exit := %s;" % ("None" if t["unknown_exit"] is None else "Some " + cz(t["unknown_exit"])))
         o.append("  t_documented := %s |}." % clist([cstr(a) for grp in t["documented"] for a in grp]))
